@@ -1,4 +1,135 @@
-/- Driver of the `energy` world (stub: to be written by the owner of this world). -/
+/-
+  Driver of the `energy` world: replays an ops file through `Mx.Energy.step` and prints one
+  result line per op line.  Must stay import-free apart from Core/Driver modules.
+-/
+import MxModel.Core.Energy
 import MxModel.Driver.Proto
 
-def main : IO Unit := Mx.Proto.mainLoop () (fun s _ => (s, none))
+open Mx Mx.Energy Mx.Proto
+
+namespace Mx.EnergyDriver
+
+/-- `n:a,n:a` (or `-`) -/
+def parsePairs (sep : String) (t : String) : Option (List (Nat × Nat)) :=
+  if t = "-" then some [] else
+  (t.splitOn sep).mapM fun w =>
+    match w.splitOn ":" with
+    | [a, b] => do pure (← a.toNat?, ← b.toNat?)
+    | _ => none
+
+def parseOp : List String → Option Op
+  | ["lock", c, amt, ep, d] => do pure (.lock (← c.toNat?) (← amt.toNat?) (← ep.toNat?) (← d.toNat?))
+  | ["extend", c, n, amt, ep, d] => do
+      pure (.extend (← c.toNat?) (← n.toNat?) (← amt.toNat?) (← ep.toNat?) (← d.toNat?))
+  | ["unlock", c, ps] => do pure (.unlock (← c.toNat?) (← parsePairs "," ps))
+  | ["merge", c, o, ps] => do pure (.merge (← c.toNat?) (← o.toNat?) (← parsePairs "," ps))
+  | ["unlockEarly", c, n, amt] => do pure (.unlockEarly (← c.toNat?) (← n.toNat?) (← amt.toNat?))
+  | ["reduce", c, n, amt, ep] => do
+      pure (.reduce (← c.toNat?) (← n.toNat?) (← amt.toNat?) (← ep.toNat?))
+  | ["lockVirtual", c, amt, ep, d, ea] => do
+      pure (.lockVirtual (← c.toNat?) (← amt.toNat?) (← ep.toNat?) (← d.toNat?) (← ea.toNat?))
+  | ["claim", c] => do pure (.claim (← c.toNat?))
+  | ["cancel", c] => do pure (.cancel (← c.toNat?))
+  | ["lockFunds", c, r, ps] => do pure (.lockFunds (← c.toNat?) (← r.toNat?) (← parsePairs "," ps))
+  | ["withdraw", c, sd] => do pure (.withdraw (← c.toNat?) (← sd.toNat?))
+  | ["cancelTransfer", sd, r] => do pure (.cancelTransfer (← sd.toNat?) (← r.toNat?))
+  | ["wrap", c, n, amt] => do pure (.wrap (← c.toNat?) (← n.toNat?) (← amt.toNat?))
+  | ["unwrap", c, wn, amt] => do pure (.unwrap (← c.toNat?) (← wn.toNat?) (← amt.toNat?))
+  | ["xferWrapped", c, t, wn, amt] => do
+      pure (.xferWrapped (← c.toNat?) (← t.toNat?) (← wn.toNat?) (← amt.toNat?))
+  | ["addOptions", ps] => do pure (.cfg (.addOptions (← parsePairs "," ps)))
+  | ["setBurnPct", p] => do pure (.cfg (.setBurnPct (← p.toNat?)))
+  | ["pause", b] => do pure (.cfg (.pause (b = "1")))
+  | ["whitelist", c] => do pure (.cfg (.whitelist (← c.toNat?)))
+  | ["unwhitelist", c] => do pure (.cfg (.unwhitelist (← c.toNat?)))
+  | ["advance", e] => do pure (.advance (← e.toNat?))
+  | _ => none      -- includes the `bad …` (malformed call) ops: they must fail
+
+def orDash (s : String) : String := if s.isEmpty then "-" else s
+
+def showNats (l : List Nat) : String := orDash (joinNats l)
+
+def showPairs (sep : String) (l : List (Nat × Nat)) : String :=
+  orDash (sep.intercalate (l.map fun p => s!"{p.1}:{p.2}"))
+
+/-- non-zero entries of a balance row over nonces `1 … n` -/
+def showRow (f : Nat → Nat) (n : Nat) : String :=
+  showPairs "," (((List.range n).map fun k => (k + 1, f (k + 1))).filter fun p => p.2 ≠ 0)
+
+def showRaw : Option Entry → String
+  | none => "-"
+  | some e => s!"{e.E},{e.last},{e.T}"
+
+def showQueue (q : List UEntry) : String :=
+  orDash (";".intercalate (q.map fun e => s!"{e.unlock},{e.nonce},{e.locked},{e.unlocked}"))
+
+def showUser (s : St) (u : Nat) : String :=
+  let v := s.view u
+  s!"u{u}={s.base u}/{showRaw (s.energy u)}/{v.E},{v.T},{v.amount}/" ++
+  s!"{showRow (s.bal u) s.nonces.length}/{showRow (s.wbal u) s.wnonces.length}/{showQueue (s.queue u)}"
+
+/-- insertion sort of the pending transfers by (receiver, sender) -/
+def insX (x : Xfer) : List Xfer → List Xfer
+  | [] => [x]
+  | y :: ys => if x.recv < y.recv ∨ (x.recv = y.recv ∧ x.sender ≤ y.sender) then x :: y :: ys else y :: insX x ys
+
+def sortX : List Xfer → List Xfer
+  | [] => []
+  | x :: xs => insX x (sortX xs)
+
+def showXfers (l : List Xfer) : String :=
+  orDash (";".intercalate ((sortX l).map fun x => s!"{x.recv},{x.sender},{x.epoch},{showPairs "+" x.funds}"))
+
+def showLast (f : Nat → Option Nat) (n : Nat) : String :=
+  orDash (",".intercalate ((List.range n).filterMap fun k =>
+    match f (k + 1) with
+    | some e => some s!"{k + 1}:{e}"
+    | none => none))
+
+def showState (s : St) (n : Nat) : String :=
+  let nn := s.nonces.length
+  let sce := if [FACTORY, UNSTAKE, TRANSFER, WRAPPER, COLLECTOR].all (fun a => (s.energy a).isNone) then "0" else "1"
+  s!"ep={s.epoch} ps={if s.paused then 1 else 0} N={showNats s.nonces} WN={showNats s.wnonces} " ++
+  s!"opts={showPairs "," s.opts} bp={s.burnPct} wl={showNats s.wl} " ++
+  " ".intercalate ((List.range n).map fun k => showUser s (k + 1)) ++
+  s!" fac={showRow (s.bal FACTORY) nn} un={showRow (s.bal UNSTAKE) nn}/{s.base UNSTAKE} " ++
+  s!"tr={showRow (s.bal TRANSFER) nn} wr={showRow (s.bal WRAPPER) nn} x={showXfers s.xfers} " ++
+  s!"sl={showLast s.sendLast n} rl={showLast s.recvLast n} sce={sce} " ++
+  s!"bs={s.baseSupply} ci={s.circ} pp={s.pendingPenalty} pb={s.penBurned} co={s.collected} " ++
+  s!"mu={s.mintUnlock} me={s.mintEarly} bl={s.burnLock} bc={s.burnCancel} vl={s.virtLocked}"
+
+def initOf (ws : List String) : St × Nat :=
+  let n := (kvNat ws "users").getD 3
+  let opts := ((kv ws "opts").bind (parsePairs ",")).getD [(360, 4000), (720, 6000), (1440, 8000)]
+  (Energy.init { epoch := (kvNat ws "ep").getD 1, opts := opts,
+                 unbond := (kvNat ws "unbond").getD 10, burnPct := (kvNat ws "burn").getD 5000,
+                 minLock := (kvNat ws "minlock").getD 4, cooldown := (kvNat ws "cooldown").getD 6,
+                 users := n, funds := (kvNat ws "funds").getD 0 }, n)
+
+def view (s : St) : List String → Option String
+  | ["penalty", amt, prev, new] => do
+      let v ← penaltyAmount s.opts (← amt.toNat?) (← prev.toNat?) (← new.toNat?)
+      pure (toString v)
+  | ["energy", u] => do
+      let e := s.view (← u.toNat?)
+      pure s!"{e.E} {e.last} {e.T} {e.amount}"
+  | _ => none
+
+def handle (sn : St × Nat) (line : String) : (St × Nat) × Option String :=
+  let (s, n) := sn
+  match words line with
+  | "W" :: rest => (initOf rest, some (" ".intercalate ("W" :: rest)))
+  | "O" :: k :: rest =>
+      match (parseOp rest).bind (step s) with
+      | some (s', o) => ((s', n), some s!"R {k} ok {o.v1} {o.v2} {o.v3} | {showState s' n}")
+      | none => (sn, some s!"R {k} err")
+  | "Q" :: k :: rest =>
+      match view s rest with
+      | some v => (sn, some s!"V {k} ok {v}")
+      | none => (sn, some s!"V {k} err")
+  | _ => (sn, none)
+
+end Mx.EnergyDriver
+
+def main : IO Unit :=
+  Mx.Proto.mainLoop (Mx.EnergyDriver.initOf []) Mx.EnergyDriver.handle
